@@ -10,9 +10,11 @@ def run(chk):
     s = chk.seed
     if quick:
         # 14 traces: 19 subjects x small lengths, plus big lengths with short streams
-        jobs = [("fin", s * 100 + i, 19, 70, 0) for i in range(10)] + [("fin", s * 100 + 50 + i, 10, 24, 1) for i in range(4)]
+        jobs = [("fin", s * 100 + i, 19, 70, 0) for i in range(10)] + [("fin", s * 100 + 50 + i, 10, 24, 1) for i in range(4)] + \
+               [("fin", s * 100 + 90, 19, 1100, 0)]        # every subject once beyond 1024 steps (periodic housekeeping, counters)
     else:
-        jobs = [("fin", s * 100 + i, 38, 300, 0) for i in range(24)] + [("fin", s * 100 + 50 + i, 19, 300, 1) for i in range(24)]
+        jobs = [("fin", s * 100 + i, 38, 300, 0) for i in range(24)] + [("fin", s * 100 + 50 + i, 19, 300, 1) for i in range(24)] + \
+               [("fin", s * 100 + 90 + i, 19, 4200, 0) for i in range(2)]
     subs = numfam.record_validate(chk, yv, "c02", jobs)
     ev = read_ndjson(os.path.join(workdir("c02"), "trace_0.ndjson"))
     chk.sample({"direction": "B", "events": ev[1:4]})
